@@ -29,6 +29,8 @@ M = [
     ("min-value-alt-off-by-one", "nucs/heuristics/min_value_dom_heuristic.py", "    shr_domains_stack[cp_cur_idx, dom_idx, MIN] = value + 1", "    shr_domains_stack[cp_cur_idx, dom_idx, MIN] = value", ["C09", "C02"]),
     ("alldiff-scratch-short", "nucs/propagators/alldifferent_propagator.py", "    bounds_nb = 2 * n + 2\n    bounds = np.zeros(bounds_nb, dtype=np.int32)\n    t = np.zeros(bounds_nb, dtype=np.uint16)  # critical capacity pointers\n    d = np.zeros(bounds_nb, dtype=np.int32)  # differences between critical capacities\n    h = np.zeros(bounds_nb, dtype=np.uint16)  # Hall interval pointers\n    min_sorted_vars = np.argsort(domains[:, MIN])\n    max_sorted_vars = np.argsort(domains[:, MAX])\n    nb = update_bounds(bounds, n, domains, ranks, min_sorted_vars, max_sorted_vars)\n    return (", "    bounds_nb = 2 * n + 1\n    bounds = np.zeros(bounds_nb, dtype=np.int32)\n    t = np.zeros(bounds_nb, dtype=np.uint16)  # critical capacity pointers\n    d = np.zeros(bounds_nb, dtype=np.int32)  # differences between critical capacities\n    h = np.zeros(bounds_nb, dtype=np.uint16)  # Hall interval pointers\n    min_sorted_vars = np.argsort(domains[:, MIN])\n    max_sorted_vars = np.argsort(domains[:, MAX])\n    nb = update_bounds(bounds, n, domains, ranks, min_sorted_vars, max_sorted_vars)\n    return (", ["C16"]),
     ("element-iv-no-upper-clamp", "nucs/propagators/element_iv_propagator.py", "    i[MAX] = min(i[MAX], len(l) - 1)\n", "    i[MAX] = min(i[MAX], len(l))\n", ["C16", "C05"]),
+    ("mp-blocking-get", "nucs/solvers/multiprocessing_solver.py", "            return solutions.get(timeout=QUEUE_TIMEOUT)\n        except Empty:\n            terminated = [", "            return solutions.get()\n        except Empty:\n            terminated = [", ["C18"]),
+    ("mp-liveness-ignores-completed", "nucs/solvers/multiprocessing_solver.py", "                if not completed[proc_idx] and not process.is_alive()", "                if completed[proc_idx] and not process.is_alive()", ["C18"]),
     ("exactly-eq-entail-early", "nucs/propagators/exactly_eq_propagator.py", None, None, []),
     ("max-regret-first-tie", "nucs/heuristics/max_regret_var_heuristic.py", "    max_regret = -1  #", "    max_regret = 0  #", ["C04"]),
     ("split-capping", "nucs/problems/problem.py", "        split_nb = min(split_nb, shr_dom_sz)  # a domain cannot be split in more parts than it has values\n", "", ["C12"]),
